@@ -24,6 +24,8 @@ theorem C19_accept_iff (scale : Int) (hs : 0 < scale) (v : PyVal) :
   | pynone => rfl
   | str => rfl
   | other => rfl
+  | nan => rfl
+  | inf => rfl
 
 /-- Every accepted scheme satisfies the validity constraints. -/
 theorem C19_accepted_valid (scale : Int) (hs : 0 < scale) (v : PyVal) (S : Scheme)
@@ -193,6 +195,12 @@ theorem C19_nickname (k : Int) (hk : 0 < k) :
 
 /-- not a pair of lists: `InvalidScoringScheme`. -/
 example : newScheme 1 (.list [.list [.int 0, .int 1], .pynone]) = .error .invalid := by decide
+/-- NaN and infinities are floats but not non-negative real numbers: refused with the "non real" exception, wherever
+    they stand (also where a comparison with NaN would let them through: `B[0] > 0`, `B[1] == 0`) -/
+example : newScheme 1 (.list [.list [.nan, .int 1, .int 1, .int 0, .int 1, .int 1],
+    .list [.int 1, .int 1, .int 0, .int 1, .int 1, .int 0]]) = .error .nonReal := by decide
+example : newScheme 1 (.list [.list [.int 0, .inf, .int 1, .int 0, .int 1, .int 1],
+    .list [.int 1, .int 1, .int 0, .int 1, .int 1, .int 0]]) = .error .nonReal := by decide
 /-- wrong length: `InvalidScoringScheme`. -/
 example : newScheme 1 (.list [.list [.int 0, .int 1, .int 1, .int 0, .int 1],
     .list [.int 1, .int 1, .int 0, .int 1, .int 1, .int 0]]) = .error .invalid := by decide
